@@ -33,10 +33,11 @@ Lemma chunks_of_table_items mx : forall cs off,
   starts_from off cs ->
   chunks_of_items mx off (table_items off cs) = Ok cs.
 Proof.
-  induction cs as [|c r IH]; intros off Htot Hsz Hst; cbn [table_items chunks_of_items]; [reflexivity|].
+  induction cs as [|c r IH]; intros off Htot Hsz Hst; cbn [table_items chunks_of_items_v]; [reflexivity|].
   cbn [total_size fold_right] in Htot. fold (total_size r) in Htot.
   inversion Hsz as [|? ? Hc Hsz']; subst. destruct Hst as [Hs Hst].
   rewrite add64_exact by lia.
+  replace (off + c_size c <? off) with false by (symmetry; apply N.ltb_ge; lia).
   replace (sub64 (off + c_size c) off) with (c_size c) by (rewrite sub64_exact by lia; lia).
   replace (mx <? c_size c) with false by (symmetry; apply N.ltb_ge; exact Hc).
   rewrite IH; [|lia|assumption|assumption].
@@ -60,7 +61,7 @@ Lemma index_from_reader_encode d i :
   wf_index i -> digest_ok d (ix_flags i) = true ->
   okrun (index_from_reader d) (encode_index i) i [].
 Proof.
-  intros Hwf Hd. unfold index_from_reader, encode_index.
+  intros Hwf Hd. unfold index_from_reader_v, encode_index.
   eapply okrun_bind; [apply next_encode, index_elem_wf, Hwf|cbv beta iota].
   rewrite Hd. cbn [negb].
   eapply okrun_bind.
@@ -90,36 +91,43 @@ Theorem index_rejects_digest_mismatch d h ff mn av mx rest :
   decode_index d (encode_elem (Index h ff mn av mx) ++ rest) = Err DigestMismatch.
 Proof.
   intros Hwf Hd. destruct (next_encode _ rest Hwf) as [a E].
-  unfold decode_index, index_from_reader, bind. rewrite E. rewrite Hd. reflexivity.
+  unfold decode_index, index_from_reader_v, bind. rewrite E. rewrite Hd. reflexivity.
 Qed.
 
 Lemma chunks_of_items_rejects mx : forall items last j,
   (j < length items)%nat ->
-  mx < sub64 (fst (nth j items (0, []))) (match j with O => last | S j' => fst (nth j' items (0, [])) end) ->
-  chunks_of_items mx last items = Err ChunkTooLarge.
+  let cur := fst (nth j items (0, [])) in
+  let prev := match j with O => last | S j' => fst (nth j' items (0, [])) end in
+  cur < prev \/ mx < sub64 cur prev ->
+  exists e, chunks_of_items mx last items = Err e /\ table_error e.
 Proof.
-  induction items as [|[off id] r IH]; intros last j Hj Hbig; [cbn in Hj; lia|].
-  cbn [chunks_of_items]. destruct j as [|j].
-  - cbn [nth fst] in Hbig. apply N.ltb_lt in Hbig. now rewrite Hbig.
-  - destruct (mx <? sub64 off last); [reflexivity|].
-    rewrite (IH off j); [reflexivity|cbn [length] in Hj; lia|].
-    cbn [nth] in Hbig. destruct j as [|j']; cbn [nth fst] in *; exact Hbig.
+  induction items as [|[off id] r IH]; intros last j Hj cur prev Hbad; [cbn in Hj; lia|].
+  cbn [chunks_of_items_v]. destruct (off <? last) eqn:Elt; [exists DecreasingOffset; split; [reflexivity|now right]|].
+  destruct (mx <? sub64 off last) eqn:Ebig; [exists ChunkTooLarge; split; [reflexivity|now left]|].
+  destruct j as [|j].
+  - subst cur prev. cbn [nth fst] in Hbad. apply N.ltb_ge in Elt. apply N.ltb_ge in Ebig. lia.
+  - destruct (IH off j) as [e [E He]]; [cbn [length] in Hj; lia| |rewrite E; exists e; split; [reflexivity|exact He]].
+    subst cur prev. cbn [nth] in Hbad. destruct j as [|j']; cbn [nth fst] in *; exact Hbad.
 Qed.
 
-(* a file made of an index element and a table in which some row is too large in the
-   decoder's unsigned arithmetic is rejected, whatever follows the table *)
-Lemma index_rejects_wrapped d h ff mn av mx th items rest j :
+(* a file made of an index element and a table in which some row ends before the preceding one, or is
+   too large, is rejected, whatever follows the table *)
+Lemma index_rejects_bad_row d h ff mn av mx th items rest j :
   wf_elem (Index h ff mn av mx) -> digest_ok d ff = true -> wf_elem (Table th items) ->
   (j < length items)%nat ->
+  fst (nth j items (0, [])) < prev_offset j items \/
   mx < sub64 (fst (nth j items (0, []))) (prev_offset j items) ->
-  decode_index d (encode_elem (Index h ff mn av mx) ++ encode_elem (Table th items) ++ rest) = Err ChunkTooLarge.
+  exists e, decode_index d (encode_elem (Index h ff mn av mx) ++ encode_elem (Table th items) ++ rest) = Err e /\
+            table_error e.
 Proof.
-  intros Hwi Hd Hwt Hj Hbig.
+  intros Hwi Hd Hwt Hj Hbad.
   destruct (next_encode _ (encode_elem (Table th items) ++ rest) Hwi) as [a1 E1].
   destruct (next_encode _ rest Hwt) as [a2 E2].
-  unfold decode_index, index_from_reader, bind. rewrite E1, Hd. cbn [negb]. rewrite E2.
-  cbn [charge]. rewrite (chunks_of_items_rejects mx items 0 j Hj); [reflexivity|].
-  unfold prev_offset in Hbig. destruct j; exact Hbig.
+  destruct (chunks_of_items_rejects mx items 0 j Hj) as [e [E He]].
+  { unfold prev_offset in Hbad. destruct j; exact Hbad. }
+  exists e. split; [|exact He].
+  unfold decode_index, index_from_reader_v, bind. rewrite E1, Hd. cbn [negb]. rewrite E2.
+  cbn [charge]. rewrite E. reflexivity.
 Qed.
 
 Lemma wf_titem_nth items j : Forall wf_titem items -> (j < length items)%nat -> fst (nth j items (0, [])) < two64.
@@ -128,31 +136,25 @@ Proof.
   destruct (nth j items (0, [])) as [o id]. destruct Hwf as [Ho _]. exact Ho.
 Qed.
 
-Lemma prev_offset_lt items j : Forall wf_titem items -> (j < length items)%nat -> prev_offset j items < two64.
-Proof.
-  intros Hwf Hj. destruct j as [|j]; cbn [prev_offset]; [lia|]. apply wf_titem_nth; [exact Hwf|lia].
-Qed.
-
 (* row j ends more than max bytes after row j-1 *)
 Theorem index_rejects_oversize d h ff mn av mx th items rest j :
   wf_elem (Index h ff mn av mx) -> digest_ok d ff = true -> wf_elem (Table th items) ->
   (j < length items)%nat ->
   prev_offset j items <= fst (nth j items (0, [])) ->
   mx < fst (nth j items (0, [])) - prev_offset j items ->
-  decode_index d (encode_elem (Index h ff mn av mx) ++ encode_elem (Table th items) ++ rest) = Err ChunkTooLarge.
+  exists e, decode_index d (encode_elem (Index h ff mn av mx) ++ encode_elem (Table th items) ++ rest) = Err e /\
+            table_error e.
 Proof.
-  intros Hwi Hd Hwt Hj Hle Hbig. eapply index_rejects_wrapped; eauto.
+  intros Hwi Hd Hwt Hj Hle Hbig. eapply index_rejects_bad_row; eauto. right.
   destruct Hwt as [_ Hit]. rewrite sub64_exact; [exact Hbig|exact Hle|]. now apply wf_titem_nth.
 Qed.
 
-(* row j ends before row j-1 (drop > 0): rejected as long as 2^64 - drop exceeds max *)
+(* row j ends before row j-1: rejected, whatever the declared maximum *)
 Theorem index_rejects_decreasing d h ff mn av mx th items rest j :
   wf_elem (Index h ff mn av mx) -> digest_ok d ff = true -> wf_elem (Table th items) ->
   (j < length items)%nat ->
   fst (nth j items (0, [])) < prev_offset j items ->
-  mx < two64 - (prev_offset j items - fst (nth j items (0, []))) ->
-  decode_index d (encode_elem (Index h ff mn av mx) ++ encode_elem (Table th items) ++ rest) = Err ChunkTooLarge.
-Proof.
-  intros Hwi Hd Hwt Hj Hlt Hbig. eapply index_rejects_wrapped; eauto.
-  destruct Hwt as [_ Hit]. rewrite sub64_wrap; [exact Hbig|exact Hlt|]. now apply prev_offset_lt.
-Qed.
+  exists e, decode_index d (encode_elem (Index h ff mn av mx) ++ encode_elem (Table th items) ++ rest) = Err e /\
+            table_error e.
+Proof. intros Hwi Hd Hwt Hj Hlt. eapply index_rejects_bad_row; eauto. Qed.
+
